@@ -210,6 +210,7 @@ class Mgr:
         self.conns = {}
         self.events = []             # abstract events, in order
         self.outs = []               # abstract frames emitted, one list per event
+        self.sent = []               # (handle, abstract frame) in emission order
         self.tasks = {}              # wid -> task
         self.escaped = []            # exceptions that escaped on_pdu (event index, type name)
         for psm in cfg.get('le', []):
@@ -359,6 +360,7 @@ class World:
         out = []
         for h, cid, pdu in M.take_emitted():
             out.append(frame_to_abs(cid, pdu))
+            M.sent.append((h, out[-1]))
             r = self.route.get((m, h))
             if r is not None:
                 l, d = r
@@ -375,14 +377,25 @@ class World:
         mi, hi, mj, hj = self.links[l]
         return (mj, hj) if d == 0 else (mi, hi)
 
-    async def deliver(self, l, d):
+    async def deliver(self, l, d, settle=True):
+        """settle=False: the frame is handled (synchronously) but the event loop is not run before
+        the next event, i.e. the next event arrives before the coroutine woken up by this frame
+        continues (two packets processed in the same loop iteration)"""
         q = self.queues[(l, d)]
         if not q:
             return False
         cid, pdu = q.pop(0)
         m, h = self.end(l, d)
+        a = frame_to_abs(cid, pdu)
+        # a refused / failed open is unregistered only when the opening coroutine resumes; the
+        # model does both in one step, so such frames are always followed by a run of the loop
+        failing = (a[0] == 'LeRsp' and a[4] != 0) or (a[0] == 'EnhRsp' and a[3] != 0) or \
+                  (a[0] == 'ConnRsp' and a[4] not in (0, 1)) or (a[0] == 'ConfReq' and a[3] >= 0) or \
+                  a[0] == 'DiscReq'
         if self.mgrs[m].ev_recv(h, cid, pdu):
-            await self.after_event(m)
+            if settle or failing:
+                await self.settle()
+            self.collect(m)
         else:
             await self.settle()
             for h2, cid2, pdu2 in self.mgrs[m].take_emitted():     # pragma: no cover (no sink: nothing)
@@ -390,6 +403,7 @@ class World:
         return True
 
     async def flush(self, budget=400):
+        await self.settle()
         while budget > 0:
             busy = False
             for key in sorted(self.queues):
@@ -411,18 +425,31 @@ class World:
             _, m, h, kind, psm, n, mode = op
             w = self.nw[m]
             self.nw[m] += 1
-            self.task_info[(m, w)] = ['open', h, self.epoch.get((m, h), 0), None]
+            ep = self.epoch.get((m, h), 0)
+            pending_here = [1 for (mm, ww), (k2, h2, e2, _) in self.task_info.items()
+                            if mm == m and k2 == 'open' and h2 == h and e2 == ep and not self.mgrs[m].tasks[ww].done()]
+            in_use_before = len(self.mgrs[m].mgr.channels.get(h, {}))
+            self.task_info[(m, w)] = ['open', h, ep, None]
             self.mgrs[m].ev_open(w, h, kind, psm, n, mode)
             await self.after_event(m)
+            # an open may fail before anything is sent only for lack of resources of ITS connection
+            t = self.mgrs[m].tasks[w]
+            if t.done() and not self.mgrs[m].outs[-1] and n >= 1 and not pending_here \
+                    and (kind == KIND_CL or in_use_before + n <= 64):
+                self.violations.append(('open-failed-locally',
+                                        f'mgr{m}: {op} failed before sending anything although connection {h} has '
+                                        f'{in_use_before} channels in use and no pending request'))
         elif k in ('close', 'abort', 'write', 'grant'):
             m, uid = op[1], op[2]
             M = self.mgrs[m]
             if uid >= len(M.chans):
                 self.skipped += 1
+                await self.settle()
                 return
             c = M.chans[uid]
             if k in ('write', 'grant') and not hasattr(c, 'drained'):
                 self.skipped += 1
+                await self.settle()
                 return
             if k == 'close':
                 w = self.nw[m]
@@ -437,6 +464,7 @@ class World:
             else:
                 if M.conns.get(c.connection.handle) is not c.connection:
                     self.skipped += 1       # a dead connection object cannot send
+                    await self.settle()
                     return
                 M.ev_grant(uid, op[3])
             await self.after_event(m)
@@ -444,12 +472,14 @@ class World:
             m, w = op[1], op[2]
             if w not in self.mgrs[m].tasks:
                 self.skipped += 1
+                await self.settle()
                 return
             self.mgrs[m].ev_cancel(w)
             await self.after_event(m)
         elif k == 'deliver':
-            if not await self.deliver(op[1], op[2]):
+            if not await self.deliver(op[1], op[2], settle=(len(op) < 4 or bool(op[3]))):
                 self.skipped += 1
+                await self.settle()
         elif k == 'flush':
             if not await self.flush():
                 self.violations.append(('livelock', 'frames still in flight after 400 deliveries'))
@@ -625,8 +655,7 @@ def gen_foreign_frame(rng, w, m, h, ltype):
     from bumble import l2cap
     M = w.mgrs[m]
     LS = l2cap.LeCreditBasedChannel.State
-    sent = [f for ev, out in zip(M.events, M.outs) for f in out
-            if (ev[0] != 'Recv' and ev[0] != 'Down') or True]
+    sent = [f for (hh, f) in M.sent if hh == h]
     mine = [c for c in M.chans if M.conns.get(c.connection.handle) is c.connection and c.connection.handle == h]
     used_peer = set(M.mgr.le_coc_channels.get(h, {}).keys())
     fresh = [c for c in (0x40, 0x41, 0x42, 0x50, 0x51, 0x52, 0x53, 0x54, 0x7F) if c not in used_peer]
@@ -671,12 +700,14 @@ def gen_foreign_frame(rng, w, m, h, ltype):
         return ['ConfRsp', rng.range(1, 255), local, rng.choice([0] * 5 + [1, 2, 3])]
     if r < 92:
         # disconnection request for one of the manager's established channels (or a stray CID)
-        est = [c for c in mine if getattr(c, 'state', None) is not None and
-               not (hasattr(c, 'drained') and c.state in (LS.INIT, LS.CONNECTING))]
+        filed = list(M.mgr.channels.get(h, {}).values())
+        est = [c for c in filed if not (hasattr(c, 'drained') and c.state in (LS.INIT, LS.CONNECTING))]
+        if any(hasattr(c, 'drained') and c.state in (LS.INIT, LS.CONNECTING) for c in filed) and not est:
+            return ['Reject', rng.range(1, 255)]
         if est and rng.chance(4, 5):
             c = rng.choice(est)
             return ['DiscReq', rng.range(1, 255), c.source_cid, c.destination_cid]
-        return ['DiscReq', rng.range(1, 255), 0x70, peer_cid]
+        return ['DiscReq', rng.range(1, 255), 0x3F, peer_cid]
     if ltype == 'le':
         return ['Credit', rng.range(1, 255), peer_cid, rng.choice([1, 3, 100])]
     return ['Reject', rng.range(1, 255)]
@@ -687,6 +718,11 @@ def _abortable(c):
     operations (see docs/C09.md, open questions)"""
     from bumble import l2cap
     return not (hasattr(c, 'drained') and c.state == l2cap.LeCreditBasedChannel.State.CONNECTING)
+
+
+def _settled(op):
+    """the property oracle looks at the implementation only when the event loop is idle"""
+    return not (op[0] == 'deliver' and len(op) >= 4 and not op[3])
 
 
 async def gen_and_run(rng, topo, ltypes, length, allow_abort=True, down_weight=8):
@@ -709,6 +745,8 @@ async def gen_and_run(rng, topo, ltypes, length, allow_abort=True, down_weight=8
                 op = ['inject', m, h, gen_foreign_frame(rng, w, m, h, ltypes[l])]
             elif busy:
                 op = ['deliver', *rng.choice(busy)]
+                if rng.chance(1, 4):
+                    op.append(0)        # the next event arrives before the woken coroutine resumes
             else:
                 op = gen_open(rng, ends, ltypes)
         elif r < 58:
@@ -741,7 +779,11 @@ async def gen_and_run(rng, topo, ltypes, length, allow_abort=True, down_weight=8
             op = ['flush'] if not foreign else gen_open(rng, ends, ltypes)
         ops.append(op)
         await w.apply(op)
-        w.check(op[0])
+        if _settled(op):
+            w.check(op[0])
+    if ops and not _settled(ops[-1]):
+        await w.settle()
+        w.check('settle')
     return w, ops
 
 
@@ -750,8 +792,12 @@ async def run_ops(topo, ops, check=True):
     w = World(cfgs, links)
     for op in ops:
         await w.apply(op)
-        if check:
+        if check and _settled(op):
             w.check(op[0])
+    if ops and not _settled(ops[-1]):
+        await w.settle()
+        if check:
+            w.check('settle')
     return w
 
 
@@ -964,6 +1010,9 @@ CORPUS = [
                                     ['close', 0, 0], ['flush']]),
     # D09e: classic disconnection collision
     ('D09e', 'pair', ['cl'], [['open', 0, 1, 2, 0x1001, 1, 0], ['flush'], ['close', 0, 0], ['close', 1, 0], ['flush']]),
+    # D09f: the response and the loss of the link are processed in the same loop iteration
+    ('D09f', 'pair', ['le'], [['open', 0, 1, 0, 0x80, 1, 0], ['deliver', 0, 0], ['deliver', 0, 1, 0], ['down', 0]]),
+    ('D09f-enh', 'pair', ['le'], [['open', 0, 1, 1, 0x80, 2, 0], ['deliver', 0, 0], ['deliver', 0, 1, 0], ['down', 0]]),
     # D07 seen from the tables: enhanced server channel, peer CIDs differ from ours, close
     ('D07-tables', 'foreign', ['le', 'le'], [['inject', 0, 1, ['EnhReq', 7, 0x80, 2, [0x50, 0x51]]], ['close', 0, 0],
                                              ['inject', 0, 1, ['DiscRsp', 1, 0x50, 0x40]]]),
@@ -986,7 +1035,7 @@ def _sig(check):
     return check
 
 
-def evaluate_cases(ctx, cases):
+def evaluate_cases(ctx, cases, extra_exprs=()):
     """model vs implementation for every manager of every case + oracle verdicts"""
     exprs, index = [], []
     for ci, case in enumerate(cases):
@@ -994,7 +1043,9 @@ def evaluate_cases(ctx, cases):
             if events and impl_supported(events):
                 exprs.append(model_expr(cfg, events))
                 index.append((ci, mi))
-    results = ctx.coq_eval(['Model.ChanMgr'], exprs, shard=150)
+    nmodel = len(exprs)
+    results_all = ctx.coq_eval(['Model.ChanMgr'], exprs + list(extra_exprs), shard=150)
+    results, extra_results = results_all[:nmodel], results_all[nmodel:]
     in_hyp = 0
     for (ci, mi), res in zip(index, results):
         case = cases[ci]
@@ -1039,11 +1090,11 @@ def evaluate_cases(ctx, cases):
                 continue
             seen.add(check)
             ctx.violation(_sig(check), f'{case.tag}: {what}', case.replay_obj())
-    return in_hyp
+    return extra_results
 
 
-def alloc_cases(ctx):
-    """direct tie of the CID allocators: the real static/class methods vs the model"""
+def alloc_gen(ctx):
+    """direct tie of the CID allocators: inputs for the real static/class methods and the model"""
     from bumble import l2cap
     rng = ctx.rng
     cases = []
@@ -1059,7 +1110,13 @@ def alloc_cases(ctx):
             used = rng.shuffle(list(range(lo - 2, lo + 12)))[:rng.below(12)]
         cases.append((used, rng.choice([0, 1, 1, 2, 3, 5, 64, 65])))
     exprs = [f'(find_free_le_n {_cv(u)} {c}%nat, find_free_le {_cv(u)}, find_free_bredr {_cv(u)})' for u, c in cases]
-    res = ctx.coq_eval(['Model.ChanMgr'], exprs)
+    return cases, exprs
+
+
+def alloc_check(ctx, cases, res):
+    from bumble import l2cap
+    lo, hi = l2cap.L2CAP_LE_U_DYNAMIC_CID_RANGE_START, l2cap.L2CAP_LE_U_DYNAMIC_CID_RANGE_END
+    full = list(range(lo, hi + 1))
     for (used, count), (mn, m1, mb) in zip(cases, res):
         impl_n = l2cap.ChannelManager.find_free_le_cids(used, count)
         impl_1 = l2cap.ChannelManager.find_free_le_cid(used)
@@ -1120,17 +1177,45 @@ def run(ctx):
                     'the host shim of tools/harness/c09.py (ShimHost/ShimConnection) stands for bumble.host.Host and '
                     'bumble.device.Connection; the order of the two disconnection callbacks is the one of Device']
     cases = []
-    for tag, topo, ltypes, ops in CORPUS + _load_corpus():
+    builtin = {t[0] for t in CORPUS}
+    for tag, topo, ltypes, ops in CORPUS + [t for t in _load_corpus() if t[0] not in builtin]:
         cases.append(run_fixed(topo, ltypes, ops, 'corpus ' + tag, with_audit=True))
-    cases += gen_campaign(ctx, ctx.n(450, 9000))
+    ctx.log(f'corpus: {len(cases)} histories run on the implementation')
+    cases += gen_campaign(ctx, ctx.n(260, 9000))
+    ctx.log(f'random campaign done: {len(cases)} histories')
     if not ctx.quick():
         cases += exhaustive_cases(ctx)
-    evaluate_cases(ctx, cases)
-    alloc_cases(ctx)
+        ctx.log(f'exhaustive short histories done: {len(cases)} histories')
+    acases, aexprs = alloc_gen(ctx)
+    ares = evaluate_cases(ctx, cases, aexprs)
+    alloc_check(ctx, acases, ares)
+    ctx.log('model evaluated and compared (histories and allocator cases)')
 
 
 def exhaustive_cases(ctx):
-    return []
+    """every history of a given length over a small alphabet (thorough tier): all interleavings of
+    open / deliver / close / abort / link loss on one link, for LE and for classic channels, and all
+    short histories with concurrent opens on the two links of a star"""
+    cases = []
+    le = [['open', 0, 1, KIND_LE, 0x80, 1, 0], ['open', 1, 5, KIND_LE, 0x80, 1, 0], ['deliver', 0, 0], ['deliver', 0, 1],
+          ['close', 0, 0], ['close', 1, 0], ['down', 0], ['write', 0, 0, 4], ['open', 0, 1, KIND_ENH, 0x80, 2, 0]]
+    cl = [['open', 0, 1, KIND_CL, 0x1001, 1, 0], ['open', 1, 5, KIND_CL, 0x1003, 1, 0], ['deliver', 0, 0], ['deliver', 0, 1],
+          ['flush'], ['close', 0, 0], ['close', 1, 0], ['down', 0], ['abort', 0, 0]]
+    for alphabet, lt, depth in ((le, 'le', 4), (cl, 'cl', 4)):
+        for d in range(2, depth + 1):
+            for seq in itertools.product(alphabet, repeat=d):
+                if seq[0][0] != 'open':
+                    continue
+                cases.append(run_fixed('pair', [lt], [list(o) for o in seq], f'exhaustive {lt} depth {d}', with_audit=True))
+    star = [['open', 0, 1, KIND_LE, 0x80, 1, 0], ['open', 0, 2, KIND_LE, 0x80, 1, 0], ['deliver', 0, 0], ['deliver', 0, 1],
+            ['deliver', 1, 0], ['deliver', 1, 1], ['close', 0, 0], ['down', 0], ['down', 1]]
+    for d in range(2, 5):
+        for seq in itertools.product(star, repeat=d):
+            if seq[0][0] != 'open':
+                continue
+            cases.append(run_fixed('star', ['le', 'le'], [list(o) for o in seq], f'exhaustive star depth {d}', with_audit=True))
+    ctx.extra['exhaustive'] = {'le_pair_depth': 4, 'classic_pair_depth': 4, 'star_depth': 4, 'histories': len(cases)}
+    return cases
 
 
 def search(ctx):
